@@ -3192,7 +3192,7 @@ type ChangeStreamForTables struct {
 
 // ChangeStreamForTable table node in CREATE CHANGE STREAM SET FOR
 //
-//	{{.TableName | sql}}{{if .Columns}}({{.Columns | sqlJoin ","}}){{end}}
+//	{{.TableName | sql}}{{if not .Rparen.Invalid}}({{.Columns | sqlJoin ","}}){{end}}
 type ChangeStreamForTable struct {
 	// pos = TableName.pos
 	// end = Rparen + 1 || TableName.end
